@@ -285,7 +285,7 @@ def minimise(lane, scn, decisions, want_cls, max_execs=700, max_wall=75.0, rescu
                 n *= 2
 
     # 1. ops, 2. faults, 3. replies/corruptions, 4. timing draws, 5. schedule decisions
-    for key in ("ops", "faults", "job"):
+    for key in ("ops", "faults", "job", "arrivals", "reports"):
         if isinstance(scn.get(key), list):
             shrink_list(lambda s, d, key=key: s[key],
                         lambda s, d, c, key=key: (dict(s, **{key: c}), d), search=True)
